@@ -826,6 +826,10 @@ class Oracle:
             par = an.parent[t]
             if par is not None and ob.run[t] and not ob.run[par]:
                 return f"nested transaction {t} runs while its enclosing body {par} does not; val={ob.val}"
+        for mname in an.methods:
+            par = an.parent[mname]
+            if par is not None and ob.run[mname] and not ob.run[par]:
+                return f"method {mname} defined inside {par} runs while its enclosing body does not; val={ob.val}"
         return None
 
     # -- C05
